@@ -36,7 +36,7 @@ func (p *c11) Init(tier string, seed int64) {
 	p.nRand = p.pick(6000, 200000)
 }
 
-func (p *c11) N() int { return p.nEnum + p.nUnknown + p.nRec + p.nMany + p.nRand }
+func (p *c11) N() int { return p.nEnum + p.nUnknown + p.nRec + p.nMany + p.nRand + c11nNames }
 
 // buildRec: terminating recursion. Every level reads its own parameters again after the inner call has
 // returned, so an activation record shared between the calls of one macro shows.
@@ -87,6 +87,43 @@ func (p *c11) buildRec(j int) (*Program, string) {
 	}
 	ts["main"] = tpl("main", main...)
 	return &Program{Templates: ts, Main: "main", Ctx: map[string]interface{}{}}, fmt.Sprintf("recursion/depth=%d/shape=%d/home=%d", depth, shape, home)
+}
+
+// c11MacroNames / c11ParamNames: names that mean something elsewhere - the built-in functions, the variables the
+// executor (or Twig) binds itself, tags. As the name of a macro reached through _self or an alias, and as the name
+// of a parameter, they are names like any other.
+var (
+	c11MacroNames = []string{"block", "parent", "include", "range", "loop", "varargs", "macro", "set", "length", "m"}
+	c11ParamNames = []string{"varargs", "loop", "_context", "_key", "_seq", "_parent", "block", "parent", "args", "self", "macro", "p"}
+)
+
+const c11nNames = 10 * 12 * 3
+
+// buildNames: macro c11MacroNames[a] with the parameters (c11ParamNames[b], q), called with 1, 2 and 4 arguments
+// through _self, through an alias and through a renaming from-import.
+func (p *c11) buildNames(j int) (*Program, string) {
+	nargs := []int{1, 2, 4}[j%3]
+	j /= 3
+	pn := c11ParamNames[j%len(c11ParamNames)]
+	mn := c11MacroNames[j/len(c11ParamNames)]
+	m := &gen.NMacro{Name: mn, Params: []string{pn, "q"}, Body: []gen.Node{tx("[" + mn + ":"), pr(nm(pn)), tx("|"), pr(nm("q")), tx("|"), pr(&gen.ECall{Fn: "fn", Args: []gen.Expr{nm(pn), nm("q")}}), tx("]")}}
+	ts := map[string]*gen.Template{"lib": tpl("lib", m)}
+	main := []gen.Node{m, &gen.NImport{Tpl: str("lib"), Alias: "L"}, &gen.NFrom{Tpl: str("lib"), Names: [][2]string{{mn, "ren"}}}}
+	for form := 0; form < 3; form++ {
+		args := c11args(nargs, form)
+		var call gen.Expr
+		switch form {
+		case 0:
+			call = &gen.EMethod{X: nm("_self"), Name: mn, Args: args}
+		case 1:
+			call = &gen.EMethod{X: nm("L"), Name: mn, Args: args}
+		default:
+			call = &gen.ECall{Fn: "ren", Args: args}
+		}
+		main = append(main, tx("<"), pr(call), tx(">"))
+	}
+	ts["main"] = tpl("main", main...)
+	return &Program{Templates: ts, Main: "main", Ctx: map[string]interface{}{}}, fmt.Sprintf("names/macro=%s/param=%s/args=%d", mn, pn, nargs)
 }
 
 // c11ManyParams: parameter lists longer than anybody writes by hand - binding is by position whatever the position.
@@ -404,6 +441,9 @@ func c11randArgs(r *rand.Rand, np int) []gen.Expr {
 }
 
 func (p *c11) build(i int) (*Program, string) {
+	if i >= p.nEnum+p.nUnknown+p.nRec+p.nMany+p.nRand {
+		return p.buildNames(i - (p.nEnum + p.nUnknown + p.nRec + p.nMany + p.nRand))
+	}
 	switch {
 	case i < p.nEnum:
 		return p.buildEnum(i)
@@ -457,6 +497,9 @@ func (p *c11) Run(i int) (res fw.Result) {
 				res.Fail("forms-differ", "c11:forms:"+sig, fmt.Sprintf("form %s renders %q (err %v) but _self.m renders %q (err %v)", c11Forms[form], lib.out, lib.err, lib0.out, lib0.err), prog.describe())
 			}
 		}
+		res.UniqueNT = 1
+	} else if i >= p.nEnum+p.nUnknown+p.nRec+p.nMany+p.nRand {
+		res.AddClass("special-names")
 		res.UniqueNT = 1
 	} else if i >= p.nEnum+p.nUnknown+p.nRec+p.nMany {
 		res.Sigs = append(res.Sigs, sig)
